@@ -5,7 +5,7 @@ import ast
 from typing import Dict, List, Optional, Set, Tuple
 
 from . import astu
-from .facts import Run, normal
+from .facts import Run, cond_pol, normal
 from .interp import Coll, Ctx, analyse_function, analyse_method
 from .model import AnalysisError, ClassInfo, iter_functions
 from .report import RuleResult
@@ -28,17 +28,42 @@ def rule_DC(run: Run) -> RuleResult:
     res = RuleResult("R-DC")
     repo = run.repo
     ds = repo.cls("Dataset")
-    if "_composed" not in ds.methods:
-        raise AnalysisError("anchor Dataset._composed not found")
-    fn = ds.methods["_composed"]
+    # the composed expression is read off the operations themselves: the term every operation of a
+    # Dataset is forwarded to (whatever property or helper builds it)
     f = ds.module.relpath
-    paths = normal(analyse_method(Ctx(repo), ds, "_composed"))
+
+    class _P:
+        def __init__(self, conds, ret):
+            self.conds, self.ret = conds, ret
+
+    def composed_of(path, op):
+        for e in path.events:
+            if e.kind in ("unfold", "op") and not e.via:
+                return e if (e.op == op and isinstance(e.target, New)) else None
+        return None
+
+    paths = []
+    seen_terms = set()
+    for p0 in run.paths(ds, "evaluate"):
+        e0 = composed_of(p0, "evaluate")
+        if e0 is None:
+            continue
+        dis = cond_pol(p0.conds, "Child(_effects_disabled)")
+        if (dis, e0.target.key()) in seen_terms:
+            continue
+        seen_terms.add((dis, e0.target.key()))
+        paths.append(_P([c for c in p0.conds if "_effects_disabled" in c[0]], e0.target))
+    fn = ds.find_method("evaluate")[1]
+    for cand in list(ds.methods.values()) + [None]:
+        if cand is not None and cand.name not in ("evaluate", "validate", "keys", "explain") and any(isinstance(x, ast.Name) and x.id in ("cached", "Cached") for x in ast.walk(cand)):
+            fn = cand       # the method that builds the composition, for reporting
+            break
     res.count("paths", len(paths))
     nec = ("derivatives made by with_options share self.cache, so a cache outside the option wrappers "
            "conflates pre-sets (C01, C08); effects or logging outside cached() run on hits (C02, C16); a "
            "callback inside the switch skips overloads (C07)")
     if not paths:
-        raise AnalysisError("Dataset._composed has no returning path")
+        raise AnalysisError("Dataset.evaluate does not forward to a composed expression (anchor vanished)")
     applies = set()
     seen_comp = {True: False, False: False}
     for p in paths:
@@ -102,15 +127,28 @@ def rule_DC(run: Run) -> RuleResult:
                 "a failed evaluation then leaves a stored value behind (C12) and hits skip effects inconsistently (C02)")
     res.add("labrea.dataset.Dataset._composed:both alternatives share one calculation", len(applies) == 1, f, fn.lineno,
             f"{len(applies)} distinct calculation terms", "the value must not depend on the effects switch (C16)")
-    # the four ops delegate to _composed with the caller's options
+    # the four ops forward to the same composed expression with the caller's options
+    terms = {p.ret.key() for p in paths}
     for op in ("evaluate", "validate", "keys", "explain"):
-        m = ds.methods.get(op)
-        if m is None:
+        r_ = ds.find_method(op)
+        if r_ is None:
             raise AnalysisError(f"Dataset.{op} not found")
-        calls = [c for c in astu.calls_in(m) if isinstance(c.func, ast.Attribute) and c.func.attr == op and astu.is_self_attr(c.func.value, "_composed")]
-        ok = len(calls) == 1 and calls[0].args and astu.norm_opts(calls[0].args[0]) == astu.param_names(m)[0]
-        res.add(f"labrea.dataset.Dataset.{op}:delegates to _composed.{op}(options)", ok, f, m.lineno,
-                f"{[ast.unparse(c) for c in calls]}", nec)
+        m = r_[1]
+        optp = astu.param_names(m)[0]
+        ops_paths = run.paths(ds, op)
+        bad = ""
+        for p0 in ops_paths:
+            e0 = composed_of(p0, op)
+            if e0 is None:
+                if p0.status == "ret":
+                    bad = "a path does not forward the operation to the composed expression"
+                continue
+            if e0.target.key() not in terms:
+                bad = f"forwards to a different expression than evaluate(): {e0.target.key()[:80]}"
+            elif e0.opts is None or e0.opts.key() != optp:
+                bad = f"forwards with options {e0.opts.key()[:60] if e0.opts is not None else None}"
+        res.add(f"labrea.dataset.Dataset.{op}:delegates to _composed.{op}(options)", bool(ops_paths) and not bad, f, m.lineno,
+                bad or "forwards to the composed expression with the caller's options", nec)
     return res
 
 
@@ -480,7 +518,10 @@ def rule_LB(run: Run) -> RuleResult:
         fn = ov.methods.get(op)
         if fn is None:
             raise AnalysisError(f"Overloaded.{op} not found")
-        reach = any(isinstance(n, ast.Attribute) and astu.is_self_attr(n) and n.attr in bnames for n in ast.walk(fn))
+        # directly or through private methods the operation delegates to
+        reach = any(isinstance(n, ast.Attribute) and astu.is_self_attr(n) and n.attr in bnames
+                    for mn, mfn in astu.reachable_self_methods(ov, [op]).items() if mn == op or mn not in ("evaluate", "validate", "keys", "explain")
+                    for n in ast.walk(mfn))
         res.add(f"labrea.overload.Overloaded.{op}:uses the freshly built switch", reach, f, fn.lineno,
                 f"{op} reads self.{sorted(bnames)}" if reach else f"{op} does not go through {sorted(bnames)}", nec)
     return res
@@ -494,49 +535,35 @@ def rule_MX(run: Run) -> RuleResult:
            "ingredient exactly when forced, caller options otherwise (C08)")
     wo = repo.cls("WithOptions")
     f = wo.module.relpath
-    if "_options" not in wo.methods:
-        raise AnalysisError("anchor WithOptions._options not found")
-    paths = normal(analyse_method(Ctx(repo), wo, "_options"))
-    res.count("paths", len(paths))
-    seen = {}
-    for p in paths:
-        pol = None
-        for c in p.conds:
-            if c[2] == "Child(force)":
-                pol = c[1]
-            elif c[2] == "unop:Not(Child(force))":
-                pol = not c[1]
-        seen[pol] = p.ret.key() if p.ret is not None else None
-    want = {True: "call:confectioner.mix(options,Child(options))", False: "call:confectioner.mix(Child(options),options)"}
-    extra_returns = []
-    for p in paths:
-        pol = None
-        for c in p.conds:
-            if c[2] == "Child(force)":
-                pol = c[1]
-            elif c[2] == "unop:Not(Child(force))":
-                pol = not c[1]
-        rk = p.ret.key() if p.ret is not None else None
-        if pol is None or rk != want[pol]:
-            extra_returns.append((pol, rk, [c[0] for c in p.conds]))
-    res.add("labrea.option.WithOptions._options:every path returns the full mix", not extra_returns, f, wo.methods["_options"].lineno,
-            "all returning paths return mix(…) of the two dictionaries" if not extra_returns else f"a path returns {extra_returns[0][1]} under {extra_returns[0][2]} — a shortcut that skips the recursive merge", nec)
-    for pol in (True, False):
-        ok = seen.get(pol) == want[pol]
-        res.add(f"labrea.option.WithOptions._options[force={pol}]:mix order", ok, f, wo.methods["_options"].lineno,
-                f"returns {seen.get(pol)}; expected {want[pol]}", nec)
-    # all four ops use self._options(options)
+    # every operation hands the wrapped object the full mix of the two dictionaries, the pre-set one as
+    # the winning ingredient exactly when forced.  Read off the paths of the four operations (whatever
+    # helper computes the mix is inlined there).
+    from .facts import cond_pol
+    n_paths = 0
     for op in ("evaluate", "validate", "keys", "explain"):
-        fn = wo.methods[op]
-        calls = [c for c in astu.calls_in(fn) if isinstance(c.func, ast.Attribute) and c.func.attr == op and astu.is_self_attr(c.func.value, "evaluatable")]
-        amap = astu.single_assign_map(fn)
-        oks = []
-        for c in calls:
-            a = astu.expand_locals(c.args[0], amap) if c.args else None
-            oks.append(a is not None and isinstance(a, ast.Call) and astu.is_self_attr(a.func, "_options") and a.args and astu.norm_opts(a.args[0]) == astu.param_names(fn)[0])
-        ok = bool(calls) and all(oks)
-        res.add(f"labrea.option.WithOptions.{op}:inner op sees the mixed options", ok, f, fn.lineno,
-                f"{[ast.unparse(c)[:70] for c in calls]}", nec)
+        owner, fn = wo.find_method(op)
+        optp = astu.param_names(fn)[0]
+        want = {True: f"call:confectioner.mix({optp},Child(options))", False: f"call:confectioner.mix(Child(options),{optp})"}
+        seen = {}
+        bad = []
+        for p in run.paths(wo, op):
+            evs = [e for e in p.events if e.kind == "op" and e.op == op and isinstance(e.target, Child) and e.target.path == "evaluatable"]
+            if p.status == "ret" and not evs:
+                bad.append(f"a path returns without asking the wrapped object ({[c[0] for c in p.conds]})")
+            n_paths += 1
+            pol = cond_pol(p.conds, "Child(force)")
+            for e in evs:
+                ok_ = pol is not None and e.opts is not None and e.opts.key() == want[pol]
+                if ok_:
+                    seen[pol] = True
+                else:
+                    bad.append(f"with force={pol} the wrapped object sees {e.opts.key()[:70] if e.opts is not None else None}; expected {want.get(pol, 'a decided force flag')}")
+        for pol in (True, False):
+            if not seen.get(pol) and not bad:
+                bad.append(f"no path for force={pol}")
+        res.add(f"labrea.option.WithOptions.{op}:inner op sees the mixed options", not bad, f, fn.lineno,
+                "mix(options, self.options) if self.force else mix(self.options, options)" if not bad else sorted(set(bad))[0], nec)
+    res.count("paths", n_paths)
     # WithDefaultOptions passes force=False
     wdo = repo.func("labrea.option.WithDefaultOptions")
     ps = normal(analyse_function(Ctx(repo), wdo.module, wdo.node))
@@ -643,6 +670,10 @@ def rule_TK(run: Run) -> RuleResult:
                 saw_nomatch = True
                 if p.status == "ret" and opt_ops:
                     delegated = True
+                elif p.status == "ret":
+                    ok_deleg = False
+                    why_deleg = (f"a returning path handles a non-parameter key without delegating it to Option(key).{op}(options) "
+                                 f"(conditions {[c[0] for c in p.conds][:4]}): references inside its value are not followed")
                 for e in opt_ops:
                     if e.opts is None or e.opts.key() != "options":
                         ok_deleg = False
@@ -663,20 +694,34 @@ def rule_TK(run: Run) -> RuleResult:
     ev = t.methods.get("evaluate")
     if ev is None:
         raise AnalysisError("Template.evaluate not found")
-    amap = astu.single_assign_map(ev)
-    ok_e = False
+    optp = astu.param_names(ev)[0]
+    ok_e = True
+    saw_full = False
     detail = ""
-    for c in astu.calls_in(ev):
-        if astu.short_name(c) == "resolve" and len(c.args) >= 2:
-            a0 = ast.unparse(astu.expand_locals(c.args[0], amap))
-            a1 = astu.expand_locals(c.args[1], amap)
-            detail = f"resolve({a0}, {ast.unparse(a1)[:80]})"
-            if a0 == "self.template" and isinstance(a1, ast.Call) and astu.short_name(a1) == "mix" and len(a1.args) == 2 \
-                    and ast.unparse(a1.args[0]) == astu.param_names(ev)[0]:
-                ing = a1.args[1]
-                if isinstance(ing, ast.DictComp) and "self.params.items()" in ast.unparse(ing) and isinstance(ing.key, ast.JoinedStr) \
-                        and ast.unparse(ing.key).startswith("f':{") and ".evaluate(" in ast.unparse(ing.value):
-                    ok_e = True
+    KEY = "fstr(Const(':'),key(Child(params)),Const(':'))"
+    n_res = 0
+    for p_ in run.paths(t, "evaluate"):
+        calls = [e for e in p_.events if e.kind == "call" and e.text.endswith("templating.resolve")]
+        if p_.status == "ret" and not calls:
+            ok_e, detail = False, "a returning path never resolves the template"
+        for e in calls:
+            n_res += 1
+            a0 = e.args[0].key() if e.args else None
+            a1 = e.args[1] if len(e.args) > 1 else None
+            detail_ = f"resolve({a0}, {a1.key()[:90] if a1 is not None else None})"
+            mixargs = a1.args if isinstance(a1, Sym) and a1.head == "call:confectioner.mix" else ()
+            if a0 != "Child(template)" or len(mixargs) != 2 or mixargs[0].key() != optp:
+                ok_e, detail = False, detail_
+                continue
+            ing = mixargs[1]
+            if isinstance(ing, Coll) and ing.elem.key() == "Val(evaluate,Child(params[*]))" and ing.keyterm is not None and ing.keyterm.key() == KEY:
+                saw_full = True
+                detail = detail or detail_
+            elif isinstance(ing, Sym) and ing.head == "dict{}" and not any(ev_.kind == "op" and isinstance(ev_.target, Child) and ev_.target.path.startswith("params") for ev_ in p_.events):
+                pass        # the zero-parameter iteration of an explicit loop
+            else:
+                ok_e, detail = False, detail_ + (f" with keys {ing.keyterm.key()[:60]}" if isinstance(ing, Coll) and ing.keyterm is not None else "")
+    ok_e = ok_e and saw_full
     res.add("labrea.template.Template.evaluate:resolves self.template against options mixed with the :name: parameters", ok_e, f, ev.lineno, detail, nec)
     eps = [p for p in run.paths(t, "evaluate") if p.status == "ret"]
     bad_r = [p.ret.key()[:80] for p in eps if not p.ret.key().startswith("call:str(call:confectioner.templating.resolve(Child(template),call:confectioner.mix(options,")]
